@@ -7,7 +7,7 @@
 EXTENDS HashImpl
 
 Arr1(x) == <<"arr", <<x>>>>
-MCKeysQuick == { <<"sym","a">>, <<"str","s">>, <<"int",7>>, <<"chr",7>>, <<"int",100>>, Arr1(Arr1(<<"chr",7>>)) }
+MCKeysQuick == { <<"sym","a">>, <<"str","s">>, <<"int",7>>, <<"int",100>>, Arr1(Arr1(<<"chr",7>>)) }  \* [[chr 7]] is the chr/int alias and the nested array in one
 MCKeys == { <<"sym","a">>, <<"sym","b">>, <<"str","s">>, <<"int",7>>, <<"chr",7>>,
             <<"int",100>>, Arr1(<<"int",100>>), Arr1(Arr1(<<"chr",7>>)) }
 MCVals == { <<"int",1>>, <<"int",2>> }
